@@ -34,34 +34,40 @@ structure Sem (s : Schema) (env : RequestEnv) (w : World) : Prop where
 def binOpOK : BinaryOp → Bool
   | .eq | .less | .lessEq | .add | .sub | .mul | .contains | .containsAll | .containsAny | .hasTag | .getTag | .mem => true
 
--- THE SECOND PROVED FRAGMENT (strict mode): see Thm/C03.lean.  Every construct; record literals have distinct keys
+-- THE SECOND PROVED FRAGMENT: see Thm/C03.lean.  In strict mode: every construct; record literals have distinct keys
 -- (Rust's `ExprKind::Record` is a map); a slot is in the fragment when the environment is linked for it; `unknown` is in it
--- vacuously (the model does not type it: `outside`).
+-- vacuously (the model does not type it: `outside`).  In permissive mode additionally: an `if` has a syntactically flat
+-- branch and a set literal is non-empty with syntactically flat elements (so that no entity-type union / `Set<Never>` arises).
 mutual
-def InFragment2 (env : RequestEnv) : Expr → Bool
+def InFragmentM (m : ValidationMode) (env : RequestEnv) : Expr → Bool
   | .lit _ => true
   | .var _ => true
   | .slot .principal => env.principalSlot.isSome
   | .slot .resource => env.resourceSlot.isSome
   | .unknown _ _ => true
-  | .ite c t e => InFragment2 env c && InFragment2 env t && InFragment2 env e
-  | .and a b => InFragment2 env a && InFragment2 env b
-  | .or a b => InFragment2 env a && InFragment2 env b
-  | .unaryApp _ a => InFragment2 env a
-  | .binaryApp op a b => binOpOK op && InFragment2 env a && InFragment2 env b
-  | .call _ args => InFragment2List env args
-  | .getAttr e _ => InFragment2 env e
-  | .hasAttr e _ => InFragment2 env e
-  | .like e _ => InFragment2 env e
-  | .is e _ => InFragment2 env e
-  | .set es => InFragment2List env es
-  | .record kvs => InFragment2KVs env kvs && decide ((kvs.map (·.1)).Nodup)
-def InFragment2List (env : RequestEnv) : List Expr → Bool
+  | .ite c t e => InFragmentM m env c && InFragmentM m env t && InFragmentM m env e && (m.isStrict || FlatExpr t || FlatExpr e)
+  | .and a b => InFragmentM m env a && InFragmentM m env b
+  | .or a b => InFragmentM m env a && InFragmentM m env b
+  | .unaryApp _ a => InFragmentM m env a
+  | .binaryApp op a b => binOpOK op && InFragmentM m env a && InFragmentM m env b
+  | .call _ args => InFragmentMList m env args
+  | .getAttr e _ => InFragmentM m env e
+  | .hasAttr e _ => InFragmentM m env e
+  | .like e _ => InFragmentM m env e
+  | .is e _ => InFragmentM m env e
+  | .set es => InFragmentMList m env es && (m.isStrict || (es.all FlatExpr && !es.isEmpty))
+  | .record kvs => InFragmentMKVs m env kvs && decide ((kvs.map (·.1)).Nodup)
+def InFragmentMList (m : ValidationMode) (env : RequestEnv) : List Expr → Bool
   | [] => true
-  | e :: es => InFragment2 env e && InFragment2List env es
-def InFragment2KVs (env : RequestEnv) : List (String × Expr) → Bool
+  | e :: es => InFragmentM m env e && InFragmentMList m env es
+def InFragmentMKVs (m : ValidationMode) (env : RequestEnv) : List (String × Expr) → Bool
   | [] => true
-  | (_, e) :: es => InFragment2 env e && InFragment2KVs env es
+  | (_, e) :: es => InFragmentM m env e && InFragmentMKVs m env es
 end
+
+/-- the strict-mode fragment -/
+abbrev InFragment2 (env : RequestEnv) (e : Expr) : Bool := InFragmentM .strict env e
+abbrev InFragment2List (env : RequestEnv) (es : List Expr) : Bool := InFragmentMList .strict env es
+abbrev InFragment2KVs (env : RequestEnv) (kvs : List (String × Expr)) : Bool := InFragmentMKVs .strict env kvs
 
 end Cedar.C03
